@@ -2,10 +2,15 @@
 from props import enginecore
 
 MODULE = "EngineCore"
-META = {"spec": ["EngineCore", "BarterSystem", "AccountLink"]}
+META = {"spec": ["EngineCore", "BarterSystem", "AccountLink", "Connectivity"]}
 
 
 def check(ctx):
+    # any number of exchanges (spec/Connectivity.tla, props/connectivity.py): the invariant proved with TLAPS (and Apalache)
+    # for an arbitrary set of exchanges, and EngineCore - the spec the traces below are validated against - refines it.
+    # Specification-level only: a failure there is a tool error, never a verdict about the code.
+    from props import connectivity
+    connectivity.run(ctx)
     # the real composition: a killed execution link must yield exactly one disconnect notice naming
     # that exchange, and the engine must show its account link (and global health) as reconnecting
     from props import composition
